@@ -80,7 +80,7 @@ def observe(tn, M):
     return obs
 
 
-def make_history(ctx, tn, first, length, final='reduce'):
+def make_history(ctx, tn, first, length, final='reduce', base=False):
     """all histories  MENU[first], MENU[s1], (MENU[s2])  on an empty model of type tn; s1,s2 solver integers (realised)"""
     T = O.types()[tn]
     spin = O.is_spin_name(tn)
@@ -94,6 +94,10 @@ def make_history(ctx, tn, first, length, final='reduce'):
         idx = [first] + [int(s) for s in sel]
         names = [MEN[i][0] for i in idx]
         M = T()
+        if base:
+            # start from a model in which every variable of the highest-degree term also occurs in a lower-degree term
+            a, b, c, d = lab
+            M = T({(b,): 1, (c,): 2, (b, c): 3} if tn in O.DEG2_TYPES else {(b,): 1, (c, d): 2, (b, c, d): 3})
         log = []          # (step, check, ok, info)
         with warnings.catch_warnings():
             warnings.simplefilter('ignore')
@@ -192,4 +196,8 @@ def jobs(tier, seed):
         for first in range(nm):
             J.append(dict(name='%s/first=%02d/len=%d' % (tn, first, length), sig=tn, module='vq.props.c14', make='make_history',
                           args=dict(tn=tn, first=first, length=length), budget_s=300 if tier == 'quick' else 2400, max_cex=40))
+        names = [x[0] for x in menu(tn, T, [0, 0, 0, 0], ('a', 'b', 'c', 'd'))]
+        for fn in (['big-=v1'] if tier == 'quick' else ['big-=v1', 'set big=v1', 'M-=dict{a:v0}', 'update{b:v2}']):
+            J.append(dict(name='%s/base/first=%s/len=%d' % (tn, fn, length), sig=tn + '/base', module='vq.props.c14', make='make_history',
+                          args=dict(tn=tn, first=names.index(fn), length=length, base=True), budget_s=300 if tier == 'quick' else 2400, max_cex=40))
     return J
